@@ -1,10 +1,10 @@
 (* GenC11.v — property C11: the statements that cite the regenerated constants (bounds of transform.quadkeyCheckZoom, consts.InnerID*Index).
-   An edit of those bounds / indices in /repo breaks GenEqCheck.gen_QuadkeyZoom_eq / GenEqConst.gen_InnerID_eq and therefore this file.
+   An edit of those bounds / indices in /repo breaks GenEqCheck.gen_QuadkeyZoom_eq / GenEqConstQuadkey.gen_InnerID_eq and therefore this file.
    NOT imported by DC11.v / Dispatch.v (the extracted model must not depend on SIDGen); only properties/C11.v imports it. *)
 From Coq Require Import ZArith Lia List Bool.
 From SID Require Import Base Ids AltKeyCore Quadkey QuadkeyConv QuadkeyObj.
 From SIDGen Require Generated.
-From SID Require GenEqCheck GenEqConst.
+From SID Require GenEqCheck GenEqConstQuadkey.
 Import ListNotations.
 Open Scope Z_scope.
 
@@ -31,7 +31,7 @@ Qed.
 Definition inner_at (p : pair) (i : Z) : Z := nth (Z.to_nat i) [fst p; snd p] 0.
 Lemma inner_at_generated p : inner_at p Generated.InnerIDQuadkeyIndex = fst p /\ inner_at p Generated.InnerIDAltitudekeyIndex = snd p.
 Proof.
-  pose proof (f_equal fst GenEqConst.gen_InnerID_eq) as E1. pose proof (f_equal snd GenEqConst.gen_InnerID_eq) as E2. cbn [fst snd] in E1, E2.
+  pose proof (f_equal fst GenEqConstQuadkey.gen_InnerID_eq) as E1. pose proof (f_equal snd GenEqConstQuadkey.gen_InnerID_eq) as E2. cbn [fst snd] in E1, E2.
   rewrite E1, E2. split; reflexivity.
 Qed.
 (* altitude-key pairs, read with the exported index constants: innerID[InnerIDQuadkeyIndex] is the interleaved key of a zoom-changed tile,
